@@ -1048,6 +1048,9 @@ class Function(Ring):
     def __neg__(self):
         return Function.pushforward(operator.neg,[self])
 
+    def __abs__(self):
+        return Function.pushforward(algopy.absolute, [self])
+
     # FIXME: implement the inplace operations for better efficiency
     # def __iadd__(self,rhs):
         # rhs = self.totype(rhs)
